@@ -120,6 +120,30 @@ unsafe fn table_remove(ptr: usize) -> Option<(usize, usize)> {
   }
 }
 
+/// The recorded (size, align) of a live block
+pub fn lookup(ptr: usize) -> Option<(usize, usize)> {
+  lock();
+  let mut result = None;
+  unsafe {
+    if !TABLE.is_null() {
+      let mut i = hash(ptr);
+      loop {
+        let e = &*TABLE.add(i);
+        if e.ptr == EMPTY {
+          break;
+        }
+        if e.ptr == ptr {
+          result = Some((e.size as usize, e.align as usize));
+          break;
+        }
+        i = (i + 1) & (TABLE_CAP - 1);
+      }
+    }
+  }
+  unlock();
+  result
+}
+
 fn write_num(buf: &mut [u8], pos: &mut usize, mut n: usize) {
   let mut tmp = [0u8; 20];
   let mut k = 0;
